@@ -40,6 +40,18 @@ def plans(world, info, seed, tier):
         if world["class"] in models.MIN_SEARCH_CLASSES and rng.random() < 0.3:
             sim["faults"] = [{"at": rng.randrange(0, 3), "kind": rng.choice(["interrupt", "time_limit_with_incumbent", "unknown", "time_limit_no_incumbent"])}]
         specs.append({"world": world, "sim": sim})
+    # given-weights variant of the DAG k-models: one layer per given weight, of which at most k may be used
+    g = world["graph"]
+    if world["class"] in ("kFlowDecomp", "kMinPathError", "kLeastAbsErrors") and g.get("weights") and not mr._node_mode(world) \
+            and "solution_weights_superset" not in world["args"]:
+        import copy
+        w2 = copy.deepcopy(world)
+        ws = list(g["weights"]) + ([rng.randint(1, 5)] if rng.random() < 0.5 else [])
+        w2["args"]["solution_weights_superset"] = ws
+        w2["args"]["k"] = max(1, len(g["weights"]) - rng.choice([0, 1, 1]))
+        for k_ in ("optimize_with_safe_paths", "optimize_with_safe_sequences", "optimize_with_safe_zero_edges", "optimize_with_flow_safe_paths"):
+            w2["args"].get("optimization_options", {}).pop(k_, None)
+        specs.append({"world": w2, "sim": {"latency": "instant", "reply": rng.choice(["canonical", "alt"]), "reply_seed": rng.randrange(1 << 30), "faults": []}})
     return specs
 
 
